@@ -306,7 +306,7 @@ def run(facts, rep, tier):
     rep.floor("C02.D2", "applications of a binary schema predicate to elements of one slice", n_pair, 1)
 
     # ------------------------------------------------------------ W5b per-variant helpers
-    from lib import PCanon
+    from lib import PCanon, depends_on
     n_b = 0
     # one pass: call sites of local fns that sit inside an iteration
     loop_calls = {}
@@ -339,7 +339,16 @@ def run(facts, rep, tier):
                             if a2.get("k") == "match" and a2.get("src") == "for":
                                 elem_txt.append(cnc.r(a2["scrut"]))
                                 break
-                        vs = [i for i, a_ in enumerate(args) if any(t_ and t_ in cnc.r(a_) for t_ in elem_txt)]
+                        srcs_ = []
+                        for j in range(len(xa) - 1, -1, -1):
+                            a2 = xa[j]
+                            if a2.get("k") == "closure" and j > 0 and xa[j - 1].get("k") == "mcall":
+                                srcs_.append(a2)
+                                break
+                            if a2.get("k") == "match" and a2.get("src") == "for":
+                                srcs_.append(a2["scrut"])
+                                break
+                        vs = [i for i, a_ in enumerate(args) if any(t_ and t_ in cnc.r(a_) for t_ in elem_txt) or any(depends_on(hh, a_, s_) for s_ in srcs_)]
                         if vs:
                             called_in_loop = True
                             varying |= set(vs)
